@@ -17,7 +17,6 @@ What is recorded (in exact program order; asyncio is single-threaded, so the ord
 
 A snapshot is {dev: [counted, balls, available, state, incoming]}, pf: [balls, available, requested], known.
 """
-import heapq
 
 TRACK_DEV = {"available_balls": "avail", "counted_balls": "count", "_state": "state"}
 TRACK_PF = {"_balls": "balls", "available_balls": "avail", "num_balls_requested": "req"}
@@ -89,6 +88,7 @@ def make_config(topo):
     bd = {
         "trough": {"ball_switches": ", ".join(tsw), "eject_coil": "c_trough", "tags": "trough, home, drain",
                    "eject_targets": "plunger", "eject_timeouts": "%dms" % topo["t_trough"],
+                   "ball_missing_timeouts": "%dms" % (topo["t_trough"] + topo.get("miss_extra", 20000)),
                    "max_eject_attempts": topo.get("att_trough", 0)},
         "plunger": {"ball_switches": "s_plunger", "eject_coil": "c_plunger", "eject_targets": "playfield",
                     "eject_timeouts": "%dms" % topo["t_plunger"],
@@ -141,14 +141,13 @@ class World:
         self.topo = case["topo"]
         self.devs = device_table(self.topo)
         self.log = []
-        self.heap = []          # (time, seq, fn, args)
-        self.seq = 0
         self.loose = self.topo.get("loose", 0)      # balls physically loose on the playfield
         self.transit = []       # [src, dst] balls physically on their way
         self.occ = {d: [False] * v["cap"] for d, v in self.devs.items()}
         for i in range(self.topo["balls"]):
             self.occ["trough"][i] = True
         self.total = self.topo["balls"] + self.loose
+        self.since = {d: [0.0] * v["cap"] for d, v in self.devs.items()}
         self.faults = {d: list(case.get("faults", {}).get(d, [])) for d in self.devs}
         self.claim = list(case.get("claims", []))       # lock claim decisions, consumed per unclaimed ball
         self.last_phys = 0.0
@@ -157,6 +156,8 @@ class World:
         self.delivered = {}     # target -> balls physically delivered
         self.rig = None
         self.names = set()
+        self.pending_phys = 0
+        self.sim_error = None
 
     # -- recording ----------------------------------------------------------------------------
     def write(self, kind, obj, attr, old, new):
@@ -251,8 +252,16 @@ class World:
         return int(round(self.now() * 1e6))
 
     def at(self, delay_ms, fn, *args):
-        self.seq += 1
-        heapq.heappush(self.heap, (self.now() + delay_ms / 1000.0, self.seq, fn, args))
+        """schedule a physical move on MPF's own (virtual-time) loop: it runs at exactly that instant"""
+        self.pending_phys += 1
+        self.rig.machine.clock.loop.call_later(delay_ms / 1000.0 + 0.000137, self._run_phys, fn, args)
+
+    def _run_phys(self, fn, args):
+        self.pending_phys -= 1
+        try:
+            fn(*args)
+        except Exception as e:      # a simulator bug must not be mistaken for MPF behaviour
+            self.sim_error = "%s: %s" % (type(e).__name__, e)
 
     def sw(self, name, state):
         self.last_phys = self.now()
@@ -270,25 +279,25 @@ class World:
             room = self.devs[tgt]["cap"] - self.count(tgt) - inbound
         bd = self.rig.machine.ball_devices[d]
         self.log.append(["C", d, self.snap(), {"target": tgt, "room": room, "has_ball": self.count(d) > 0,
-                                                "state": bd.state}])
+                                                "state": bd.state, "t": self.now_us()}])
         if self.count(d) == 0:
             return
         f = self.faults[d].pop(0) if self.faults[d] else ["ok", 50, 400, 300]
         kind = f[0]
         if kind == "stuck":
-            self.log.append(["S", "stuck", d])
+            self.log.append(["S", "stuck", d, d, self.now_us()])
             return
         self.at(f[1], self.ball_leaves, d, tgt, f)
 
     def ball_leaves(self, d, tgt, f):
         if self.count(d) == 0:
             return
-        # the ball in the highest occupied position leaves
-        idx = max(i for i, x in enumerate(self.occ[d]) if x)
+        # the ball that has been sitting in the device for the longest time is the one at the exit
+        idx = min((self.since[d][i], i) for i, x in enumerate(self.occ[d]) if x)[1]
         self.occ[d][idx] = False
         kind = f[0]
         dst = d if kind == "fallback" else tgt
-        self.log.append(["S", "leave", d, dst])
+        self.log.append(["S", "leave", d, dst, self.now_us()])
         if dst == "playfield":
             self.loose += 1
             self.delivered["playfield"] = self.delivered.get("playfield", 0) + 1
@@ -305,16 +314,17 @@ class World:
             self.transit.remove([src, dst])
         if dst == "playfield":
             self.loose += 1
-            self.log.append(["S", "arrive", src, dst])
+            self.log.append(["S", "arrive", src, dst, self.now_us()])
             return
         free = [i for i, x in enumerate(self.occ[dst]) if not x]
         if not free:
             # physically no room: the ball bounces back to the playfield
             self.loose += 1
-            self.log.append(["S", "bounce", src, dst])
+            self.log.append(["S", "bounce", src, dst, self.now_us()])
             return
         self.occ[dst][free[0]] = True
-        self.log.append(["S", "arrive", src, dst])
+        self.since[dst][free[0]] = self.now()
+        self.log.append(["S", "arrive", src, dst, self.now_us()])
         if src != dst:
             self.delivered[dst] = self.delivered.get(dst, 0) + 1
         self.sw(self.devs[dst]["sw"][free[0]], 1)
@@ -322,7 +332,7 @@ class World:
     def pf_hit(self):
         if self.loose <= 0:
             return
-        self.log.append(["S", "pfhit"])
+        self.log.append(["S", "pfhit", "playfield", "playfield", self.now_us()])
         self.sw("s_pf", 1)
         self.sw("s_pf", 0)
 
@@ -334,8 +344,21 @@ class World:
             return      # physically impossible: no room
         self.loose -= 1
         self.transit.append(["playfield", dst])
-        self.log.append(["S", "leave", "playfield", dst])
+        self.log.append(["S", "leave", "playfield", dst, self.now_us()])
         self.at(transit_ms, self.ball_arrives, "playfield", dst)
+
+    def leak(self, d):
+        """a ball sitting in <d> jumps out onto the playfield although nobody ejected it"""
+        if d not in self.devs or self.count(d) == 0:
+            return
+        if self.rig.machine.ball_devices[d].state != "idle":
+            return      # only model the idle case: otherwise it is physically the same as a (successful) eject
+        idx = min((self.since[d][i], i) for i, x in enumerate(self.occ[d]) if x)[1]
+        self.occ[d][idx] = False
+        self.loose += 1
+        self.log.append(["S", "leak", d, "playfield", self.now_us()])
+        self.sw(self.devs[d]["sw"][idx], 0)
+        self.last_phys = self.now() + 5.6       # MPF waits idle_missing_ball_timeout (5 s) before it books the loss
 
     # -- script -------------------------------------------------------------------------------
     def do_action(self, a):
@@ -365,6 +388,8 @@ class World:
             self.loose_to("lock", a[1])
         elif k == "pfhit":
             self.pf_hit()
+        elif k == "lockleak":
+            self.leak("lock")
         elif k == "wait":
             pass
         else:
@@ -385,67 +410,361 @@ class World:
         return True
 
     def heap_has_physical(self):
-        return any(fn in (self.ball_leaves, self.ball_arrives) for _, _, fn, _ in self.heap)
+        return self.pending_phys > 0
 
     def step_to(self, t):
-        """advance virtual time to t, executing the simulator's scheduled moves on the way"""
-        while True:
-            nxt = self.heap[0][0] if self.heap else None
-            if nxt is not None and nxt <= t:
-                dt = max(0.0, nxt - self.now())
-                self.rig.advance(dt)
-                while self.heap and self.heap[0][0] <= self.now() + 1e-9:
-                    _, _, fn, args = heapq.heappop(self.heap)
-                    fn(*args)
-                self.rig.advance(0)
-                self.tick()
-            else:
-                dt = t - self.now()
-                if dt > 0:
-                    self.rig.advance(dt)
-                    self.tick()
-                return
+        """advance virtual time to t in small steps, logging a snapshot after each"""
+        while self.now() < t - 1e-9:
+            dt = min(0.25, t - self.now())
+            self.rig.advance(dt)
+            self.tick()
 
     def tick(self):
-        exc = self.rig.exception()
-        if exc and not self.error:
-            self.error = repr(exc.get("exception", exc))[:300] if isinstance(exc, dict) else repr(exc)[:300]
-        self.log.append(["T", self.snap(), self.is_rest(), self.truth(), self.now_us()])
+        item = ["T", self.snap(), self.is_rest(), self.truth(), self.now_us()]
+        if self.log and self.log[-1][0] == "T" and self.log[-1][2] == item[2]:
+            self.log[-1] = item         # nothing happened since the last tick
+        else:
+            self.log.append(item)
 
     def run(self):
         try:
             self.boot()
-            for a in self.case["script"]:
-                self.step_to(self.now() + a[0] / 1000.0)
-                self.do_action(a[1:])
-                self.rig.advance(0)
-                self.tick()
-            # let the world come to rest
-            end = self.now() + self.case.get("settle_s", 90)
-            quiet = 0
-            while self.now() < end:
-                self.step_to(self.now() + 1.0)
-                if self.is_rest():
-                    quiet += 1
-                    if quiet >= self.case.get("quiet_s", 3):
-                        break
-                else:
-                    quiet = 0
-            self.final_rest = self.is_rest()
+            try:
+                for a in self.case["script"]:
+                    self.step_to(self.now() + a[0] / 1000.0)
+                    self.do_action(a[1:])
+                    self.rig.advance(0)
+                    self.tick()
+                # let the world come to rest
+                end = self.now() + self.case.get("settle_s", 120)
+                quiet = 0
+                while self.now() < end:
+                    self.step_to(self.now() + 1.0)
+                    if self.is_rest():
+                        quiet += 1
+                        if quiet >= self.case.get("quiet_s", 3):
+                            break
+                    else:
+                        quiet = 0
+                self.final_rest = self.is_rest()
+                self.final = {"snap": self.snap(), "truth": self.truth(),
+                              "idle": {d: self.rig.machine.ball_devices[d].outgoing_balls_handler.is_idle
+                                       for d in self.devs}}
+            except Exception as e:      # MPF itself raised (the test loop stops on the first exception)
+                self.error = "%s: %s" % (type(e).__name__, str(e)[:300])
         finally:
             _REC["cur"] = None
             if self.rig is not None:
                 try:
-                    exc = self.rig.exception()
-                    if exc and not self.error:
-                        self.error = repr(exc)[:300]
                     self.rig._exception = None
                 except Exception:
                     pass
                 self.rig.stop()
-        return {"log": self.log, "error": self.error, "final_rest": getattr(self, "final_rest", False),
+        return {"log": self.log, "error": self.error, "sim_error": self.sim_error,
+                "final_rest": getattr(self, "final_rest", False), "final": getattr(self, "final", None),
                 "delivered": self.delivered}
 
 
 def run_world(case):
     return World(case).run()
+
+
+# ------------------------------------------------------------------------------------------------
+# generator
+def gen_fault(rng, timeout_ms, to_pf, profile, miss_extra=20000):
+    r = rng.random()
+    leave = rng.choice([20, 50, 80, 120])
+    if profile == "calm":
+        r = 1.0 if r > 0.08 else r
+    if r < 0.10:
+        return ["stuck"]
+    if r < 0.18:
+        return ["fallback", leave, rng.choice([150, 400, 900, 1600])]
+    if to_pf:
+        # playfield target: the confirm is a playfield switch hit after pf ms, or none (-1: confirm by timeout)
+        pf = rng.choice([-1, 100, 300, 700, 1500, timeout_ms - 50, timeout_ms + 30, timeout_ms + 600])
+        return ["ok", leave, 0, pf]
+    if r < 0.26:
+        transit = timeout_ms + rng.choice([-200, 40, 300, 1500, 4000, timeout_ms + miss_extra + 700])
+        return ["ok", leave, max(100, transit - leave), -1]
+    return ["ok", leave, rng.choice([150, 300, 600, 1000, 1400]), -1]
+
+
+def gen_case(rng, tier, i, profile=None):
+    profile = profile or rng.choice(["calm", "calm", "faulty", "faulty", "busy"])
+    n = rng.choice([2, 3, 3, 4, 5])
+    topo = {"trough_n": n, "balls": rng.choice([n, n, n, max(1, n - 1)]), "lock_k": rng.choice([0, 0, 1, 2, 2]),
+            "t_trough": rng.choice([2000, 3000, 5000]), "t_plunger": rng.choice([2000, 3000, 6000]),
+            "t_lock": rng.choice([2000, 3000, 6000]),
+            "att_trough": rng.choice([0, 0, 0, 2, 3]), "att_plunger": rng.choice([0, 0, 0, 2, 4]),
+            "att_lock": rng.choice([0, 0, 2]),
+            "miss_extra": rng.choice([20000, 20000, 1500, 3000]),
+            "loose": 1 if rng.random() < 0.08 else 0}
+    if topo["loose"] and topo["balls"] == n:
+        topo["balls"] = n - 1
+    acts = []
+    w = [("add_ball", 32), ("drain", 24), ("pfhit", 5), ("request", 5), ("collect", 3), ("wait", 6)]
+    if topo["lock_k"]:
+        w += [("lockshot", 16), ("eject", 7), ("eject_all", 3), ("lockleak", 3)]
+    names = [a for a, _ in w]
+    weights = [x for _, x in w]
+    for _ in range(rng.choice([2, 3, 4, 6, 8, 12] if profile != "busy" else [8, 12, 16])):
+        a = rng.choices(names, weights)[0]
+        if profile == "busy":
+            dt = rng.choice([0, 0, 30, 120, 400, 900, 2000])
+        else:
+            dt = rng.choice([0, 100, 600, 1500, 4000, 9000, 15000])
+        if a in ("drain", "lockshot"):
+            acts.append([dt, a, rng.choice([200, 500, 900, 1500])])
+        elif a == "request":
+            acts.append([dt, a, "plunger"])
+        elif a in ("eject", "eject_all"):
+            acts.append([dt, a, "lock"])
+        else:
+            acts.append([dt, a])
+    faults = {}
+    for d, key, to_pf in (("trough", "t_trough", False), ("plunger", "t_plunger", True), ("lock", "t_lock", True)):
+        faults[d] = [gen_fault(rng, topo[key], to_pf, profile, topo["miss_extra"])
+                     for _ in range(rng.choice([4, 8, 16]))]
+    claims = [1 if rng.random() < 0.6 else 0 for _ in range(8)]
+    return {"topo": topo, "script": acts, "faults": faults, "claims": claims, "profile": profile}
+
+
+def shrink_case(case):
+    sc = case["script"]
+    for i in range(len(sc)):
+        yield dict(case, script=sc[:i] + sc[i + 1:])
+    for d, fl in case["faults"].items():
+        for i in range(len(fl)):
+            if fl[i][0] != "ok" or fl[i][1:] != [50, 300, 300]:
+                f2 = dict(case["faults"])
+                f2[d] = fl[:i] + [["ok", 50, 300, 300]] + fl[i + 1:]
+                yield dict(case, faults=f2)
+    for i in range(len(sc)):
+        if sc[i][0] not in (0, 1000):
+            yield dict(case, script=sc[:i] + [[1000] + sc[i][1:]] + sc[i + 1:])
+    t = case["topo"]
+    if t.get("lock_k", 0) and not any(a[1] in ("lockshot", "eject", "eject_all") for a in sc):
+        yield dict(case, topo=dict(t, lock_k=0))
+    if t["trough_n"] > 2 and t["balls"] < t["trough_n"]:
+        yield dict(case, topo=dict(t, trough_n=t["trough_n"] - 1))
+
+
+# ------------------------------------------------------------------------------------------------
+# raw log -> semantic labels (see coq/C04/Model.v for the meaning of each label)
+def _is(it, kind, *rest):
+    if it is None or it[0] != kind:
+        return False
+    for a, b in zip(it[1:], rest):
+        if b is not None and a != b:
+            return False
+    return True
+
+
+def parse_log(log, devs):
+    """Returns list of labels (tuples).  Unknown raw items become ("Stray", text)."""
+    # drop the boot part (everything before the first tick), no-op writes, actions
+    start = next(i for i, it in enumerate(log) if it[0] == "T")
+    raw = []
+    for it in log[start:]:
+        if it[0] == "W" and it[3] == it[4]:
+            continue
+        if it[0] == "A":
+            continue
+        if it[0] == "P" and it[1] in ("sw_playfield_active", "playfield_active", "unexpected_ball_on_playfield",
+                                      "balldevice_ball_missing"):
+            continue
+        raw.append(it)
+    out = []
+    i = 0
+    n = len(raw)
+
+    def at(k):
+        return raw[k] if k < n else None
+
+    def w(k, obj, attr, delta):
+        it = at(k)
+        return (it is not None and it[0] == "W" and (obj is None or it[1] == obj) and it[2] == attr and
+                isinstance(it[3], int) and isinstance(it[4], int) and it[4] - it[3] == delta)
+
+    def p(k, ev):
+        it = at(k)
+        return it is not None and it[0] == "P" and it[1] == ev
+
+    def pf_added(k):
+        return (w(k, "playfield", "balls", 1) and p(k + 1, "balldevice_playfield_ball_enter") and
+                p(k + 2, "playfield_ball_count_change"))
+
+    while i < n:
+        it = raw[i]
+        k = it[0]
+        if k == "T":
+            out.append(("Snap", it[1], "T", it[2], it[3]))
+            i += 1
+        elif k == "H":
+            out.append(("Snap", it[2], "H", False, None))
+            i += 1
+        elif k == "C":
+            out.append(("Pulse", it[1]))
+            i += 1
+        elif k == "S":
+            out.append(("S",) + tuple(it[1:4]))
+            i += 1
+        elif k == "W":
+            obj, attr = it[1], it[2]
+            if attr == "count" and obj in devs:
+                if p(i + 1, "balldevice_%s_ball_count_changed" % obj) and raw[i + 1][2].get("balls") == it[4]:
+                    out.append(("Count", obj, it[4]))
+                    i += 2
+                else:
+                    out.append(("Stray", "count write without event: %r" % (it,)))
+                    i += 1
+            elif attr == "state" and obj in devs:
+                out.append(("State", obj, it[4]))
+                i += 1
+            elif attr == "avail" and obj in devs and w(i, obj, "avail", -1):
+                nx = at(i + 1)
+                if nx is not None and nx[0] == "W" and nx[2] == "avail" and nx[1] != obj and w(i + 1, None, "avail", 1) \
+                        and p(i + 2, "balldevice_balls_available"):
+                    out.append(("Chain", obj, nx[1]))
+                    i += 3
+                elif w(i + 1, "playfield", "avail", 1) and pf_added(i + 2):
+                    out.append(("Lost", obj))
+                    i += 5
+                else:
+                    out.append(("AvailDec", obj))
+                    i += 1
+            elif attr == "avail" and obj in devs and w(i, obj, "avail", 1):
+                out.append(("Added", obj))
+                i += 1
+            elif obj == "playfield" and w(i, obj, "balls", -1) and p(i + 1, "playfield_ball_count_change") and \
+                    w(i + 2, "playfield", "avail", -1):
+                out.append(("PfRemoved",))
+                i += 3
+            elif obj == "playfield" and pf_added(i):
+                out.append(("PfAdded",))
+                i += 3
+            elif obj == "playfield" and w(i, obj, "avail", 1) and pf_added(i + 1):
+                out.append(("MissingToPf",))
+                i += 4
+            elif obj == "playfield" and w(i, obj, "avail", -1) and w(i + 1, obj, "avail", 1) and pf_added(i + 2):
+                out.append(("CancelMissing",))
+                i += 5
+            elif obj == "bc" and w(i, "bc", "known", 1) and pf_added(i + 1) and w(i + 4, "playfield", "avail", 1) and \
+                    p(i + 5, "found_new_ball"):
+                out.append(("FoundNew",))
+                i += 6
+            elif obj == "playfield" and attr == "req" and (w(i, obj, "req", 1) or w(i, obj, "req", -1)):
+                out.append(("PfReq", it[4] - it[3]))
+                i += 1
+            else:
+                out.append(("Stray", "unexplained write %r" % (it,)))
+                i += 1
+        elif k == "P":
+            ev, a = it[1], it[2]
+            m = None
+            for d in devs:
+                pre = "balldevice_%s_" % d
+                if ev.startswith(pre):
+                    m = (d, ev[len(pre):])
+            if ev == "balldevice_balls_available":
+                pass
+            elif ev == "balldevice_captured_from_playfield":
+                out.append(("Captured",))
+            elif m is None:
+                out.append(("Stray", "unexpected event %s" % ev))
+            else:
+                d, suf = m
+                if suf == "ball_enter":
+                    out.append(("Enter", d, int(a.get("unclaimed_balls", 0)), int(a.get("new_available_balls", 0))))
+                elif suf == "ball_entered":
+                    out.append(("Entered", d, int(a.get("new_balls", 0))))
+                elif suf == "ball_eject_attempt":
+                    out.append(("Attempt", d, a.get("target"), int(a.get("num_attempts", 0))))
+                elif suf == "ejecting_ball":
+                    out.append(("Ejecting", d, a.get("target"), int(a.get("num_attempts", 0))))
+                elif suf == "ball_eject_success":
+                    out.append(("Success", d, a.get("target")))
+                elif suf == "ball_eject_failed":
+                    out.append(("Failed", d, a.get("target"), 1 if a.get("retry") else 0,
+                                int(a.get("num_attempts", 0))))
+                elif suf == "ball_missing":
+                    out.append(("MissingEv", d))
+                elif suf == "broken":
+                    out.append(("Broken", d))
+                else:
+                    out.append(("Stray", "unexpected event %s" % ev))
+            i += 1
+        else:
+            out.append(("Stray", "raw %r" % (it,)))
+            i += 1
+    return out
+
+
+# ------------------------------------------------------------------------------------------------
+# direct oracle for C04 (independent of the model): the property's own predicate on the recorded run
+def oracle_c04(case, out):
+    fails = []
+    devs = device_table(case["topo"])
+    if out.get("sim_error"):
+        return [{"sig": "simulator-bug", "what": out["sim_error"]}]
+    if out.get("error"):
+        fails.append({"sig": "mpf-exception", "what": "MPF raised while the balls moved: %s" % out["error"]})
+    seen = set()
+
+    def add(sig, what):
+        if sig not in seen:
+            seen.add(sig)
+            fails.append({"sig": sig, "what": what})
+
+    started = False
+    for it in out["log"]:
+        k = it[0]
+        if k == "T":
+            started = True
+        if not started:
+            continue
+        snap = it[1] if k == "T" else it[2] if k in ("H", "C") else None
+        if snap is not None:
+            where = "at t=%.3fs" % (it[4] / 1e6) if k == "T" else "when %s is dispatched" % it[1] if k == "H" \
+                else "when coil of %s is pulsed" % it[1]
+            for d, v in devs.items():
+                counted, balls = snap[d][0], snap[d][1]
+                if balls < 0:
+                    if counted >= 0 and balls == counted - 1 and snap[d][3] in ("ball_left", "failed_confirm"):
+                        add("balls-negative-after-confirm",
+                            "device.balls == %d for %s (%s; counted_balls already decremented, state still %s)" %
+                            (balls, d, where, snap[d][3]))
+                    else:
+                        add("count-negative", "device.balls == %d for %s %s" % (balls, d, where))
+                if counted < 0:
+                    add("count-negative", "counted_balls == %d for %s %s" % (counted, d, where))
+                if balls > v["cap"] or counted > v["cap"]:
+                    add("count-above-capacity", "%s: balls=%d counted=%d capacity=%d %s" %
+                        (d, balls, counted, v["cap"], where))
+            if snap["playfield"][0] < 0:
+                add("playfield-balls-negative", "playfield.balls == %d %s" % (snap["playfield"][0], where))
+        if k == "T" and it[2]:
+            snap, truth = it[1], it[3]
+            for d in devs:
+                if snap[d][0] != truth["dev"][d] or snap[d][1] != truth["dev"][d]:
+                    add("rest-device-count", "at rest (t=%.3fs) %s counts %d (balls %d) but physically holds %d" %
+                        (it[4] / 1e6, d, snap[d][0], snap[d][1], truth["dev"][d]))
+            unknown = truth["total"] - snap["known"]
+            if unknown < 0 or unknown > case["topo"].get("loose", 0):
+                add("rest-known", "at rest (t=%.3fs) num_balls_known=%d but %d balls exist" %
+                    (it[4] / 1e6, snap["known"], truth["total"]))
+            elif snap["playfield"][0] + unknown != truth["loose"]:
+                add("rest-playfield-count", "at rest (t=%.3fs) playfield.balls=%d but %d balls are loose "
+                    "(%d of them never seen by MPF)" % (it[4] / 1e6, snap["playfield"][0], truth["loose"], unknown))
+            if sum(snap[d][1] for d in devs) + snap["playfield"][0] != snap["known"]:
+                add("rest-sum", "at rest (t=%.3fs) counts sum to %d but num_balls_known=%d" %
+                    (it[4] / 1e6, sum(snap[d][1] for d in devs) + snap["playfield"][0], snap["known"]))
+        if k == "C":
+            info = it[3]
+            if info["room"] is not None and info["room"] <= 0:
+                add("pulse-towards-full-device", "coil of %s pulsed while its target %s has no room" %
+                    (it[1], info["target"]))
+            if info["state"] != "ejecting":
+                add("pulse-outside-eject", "coil of %s pulsed in state %s" % (it[1], info["state"]))
+    return fails
